@@ -129,7 +129,7 @@ class WriteToPaths(Writer):
             )
 
         suffix = path.suffix
-        if suffix:
+        if suffix and _sid.is_leaf():  # only leaf Sids are files: a folder name may contain a dot
             debug(f"Path is a file: {path}")
             template = create_file_using_template.get(suffix[1:])  # we remove the dot of the suffix
             if template:
